@@ -12,12 +12,68 @@ import ppref
 from ppref import RefError, RefState, Tok
 
 
+def lex_tokens(text):
+    """lexical tokens of preprocessor output: comments and strings are single tokens, words
+    ([A-Za-z0-9_$] with optional leading backtick or backslash-escaped identifier), other characters single"""
+    out = []
+    i = 0
+    n = len(text)
+    while i < n:
+        c = text[i]
+        if c in ' \t\n\r\x0b\x0c':
+            i += 1
+            continue
+        if text.startswith('//', i):
+            j = text.find('\n', i)
+            if j < 0:
+                j = n
+            out.append(('com', ' '.join(text[i:j].split())))
+            i = j
+            continue
+        if text.startswith('/*', i):
+            j = text.find('*/', i + 2)
+            j = n if j < 0 else j + 2
+            out.append(('com', ' '.join(text[i:j].split())))
+            i = j
+            continue
+        if c == '"':
+            j = i + 1
+            while j < n and text[j] != '"':
+                if text[j] == '\\':
+                    j += 1
+                j += 1
+            out.append(('str', text[i:j + 1]))
+            i = j + 1
+            continue
+        if c == '\\':
+            j = i + 1
+            while j < n and text[j] not in ' \t\n\r':
+                j += 1
+            out.append(('esc', text[i:j]))
+            i = j
+            continue
+        if c.isalnum() or c in '_$`':
+            j = i + 1
+            while j < n and (text[j].isalnum() or text[j] in '_$'):
+                j += 1
+            out.append(('word', text[i:j]))
+            i = j
+            continue
+        out.append(('sym', c))
+        i += 1
+    return out
+
+
 def tokens_of(text):
-    return text.split()
+    return [t for _, t in lex_tokens(text)]
+
+
+def ref_tokens(toks):
+    return tokens_of('\n'.join(t.text for t in toks))
 
 
 def token_offsets(text):
-    """[(token, byte offset)] of whitespace-separated tokens"""
+    """[(token, byte offset)]: whitespace-separated tokens, comments split out as single tokens"""
     out = []
     b = text.encode('utf-8')
     i = 0
@@ -28,8 +84,20 @@ def token_offsets(text):
             i += 1
         if i >= n:
             break
+        if b[i:i + 2] == b'//':
+            j = b.find(b'\n', i)
+            j = n if j < 0 else j
+            out.append((b[i:j].decode('utf-8'), i))
+            i = j
+            continue
+        if b[i:i + 2] == b'/*':
+            j = b.find(b'*/', i + 2)
+            j = n if j < 0 else j + 2
+            out.append((b[i:j].decode('utf-8'), i))
+            i = j
+            continue
         j = i
-        while j < n and b[j] not in ws:
+        while j < n and b[j] not in ws and b[j:j + 2] not in (b'//', b'/*'):
             j += 1
         out.append((b[i:j].decode('utf-8'), i))
         i = j
@@ -201,8 +269,8 @@ def origin_mismatches(case, files_text, real, toks):
     text = real['text']
     origins = real['origins']
     offs = token_offsets(text)
-    if len(offs) != len(toks):
-        return ['token count differs (origins not compared)']
+    if len(offs) != len(toks) or [t for t, _ in offs] != [r.text for r in toks]:
+        return []   # layout not whitespace-separated: provenance not comparable token by token
     for (tt, o), ref in zip(offs, toks):
         org = origins[o]
         pv = ref.prov
@@ -271,6 +339,9 @@ def origin_mismatches(case, files_text, real, toks):
             if src is not None:
                 sb = src.encode('utf-8')
                 if not (0 <= org[1] < len(sb)) or sb[org[1]] != tb[i]:
+                    # the blank left in place of a stripped comment maps to the comment's first byte
+                    if tb[i:i + 1] == b' ' and 0 <= org[1] < len(sb) and sb[org[1]:org[1] + 2] in (b'//', b'/*'):
+                        continue
                     # blanks that end a macro expansion carry the expansion's provenance (file of the
                     # definition, offset not before the body): accepted by the property's statement
                     if prev_ref is not None and prev_ref.prov[0] == 'macro' and prev_ref.prov[1] is not None and \
@@ -310,6 +381,10 @@ def crosscheck(case, items, evalfn, files_text=None, kinds=('tokens', 'table', '
     for rp in real:
         for ob in rp.obligations:
             cr.obligations.append({'case': case.label, 'ob': ob})
+            # a panic obligation that can fail is a candidate violation (never-panics, C08) of whatever
+            # property's harness met it; it is replayed natively before it is reported
+            cr.mismatches.append({'kind': 'panic', 'note': 'real code can panic: %s (in %s)' % (ob['msg'], ob.get('where', '')),
+                                  'model': ob.get('model'), 'real': None, 'ref': None})
         if rp.outcome == 'panic':
             cr.panics.append({'case': case.label, 'panic': rp.panic, 'model': rp.model})
             cr.mismatches.append({'kind': 'panic', 'note': 'real code panics: %s' % rp.panic['msg'], 'model': rp.model,
@@ -342,7 +417,7 @@ def crosscheck(case, items, evalfn, files_text=None, kinds=('tokens', 'table', '
                                       'model': m, 'real': rv, 'ref': [t.text for t in fv[1]]})
                 continue
             rt = tokens_of(rv['text'])
-            ft = [t.text for t in fv[1]]
+            ft = ref_tokens(fv[1])
             tokens_ok = rt == ft
             if 'tokens' in kinds and not tokens_ok:
                 cr.mismatches.append({'kind': 'tokens', 'note': 'tokens differ: real %r, reference %r' % (rt, ft), 'model': m,
